@@ -4,9 +4,11 @@ import ZvbiModel.Demux.LemmasForget
 -/
 namespace Zvbi.Demux
 
+variable {cfg : SrcCfg}
+
 /-- any two sufficient fuels give the same result -/
 theorem extractLoop_fuel : ∀ (k1 k2 : Nat) (f : Frame) (d : Bytes), d.length < k1 → d.length < k2 →
-    extractLoop k1 f d = extractLoop k2 f d := by
+    extractLoop cfg k1 f d = extractLoop cfg k2 f d := by
   intro k1
   induction k1 with
   | zero => intro k2 f d h; omega
@@ -29,7 +31,7 @@ theorem extractLoop_fuel : ∀ (k1 k2 : Nat) (f : Frame) (d : Bytes), d.length <
             have hdrop : ((id :: len :: t).drop (len + 2)).length < k1 ∧
                 ((id :: len :: t).drop (len + 2)).length < k2 := by
               simp only [List.length_drop]; omega
-            cases dataUnit f (id :: len :: t) id len with
+            cases dataUnit cfg f (id :: len :: t) id len with
             | skip => exact ih _ _ _ hdrop.1 hdrop.2
             | store f' => exact ih _ _ _ hdrop.1 hdrop.2
             | fail f' r => rfl
@@ -40,9 +42,9 @@ def frX (x : Nat) : Frame := { lastDuId := x }
 /-- `line_address` on a reset frame whose `last_data_unit_id` is stale: -1 for an undefined line of
 the second field (independent of the system), otherwise what the reset frame does -/
 theorem lineAddress_frX (x lofp : Nat) :
-    (∀ sys, lineAddress (frX x) lofp sys = .newFrame) ∨
-    (∀ sys, ∃ f' line, lineAddress {} lofp sys = .ok f' line ∧
-        lineAddress (frX x) lofp sys = .ok { f' with lastDuId := x } line) := by
+    (∀ sys, lineAddress cfg (frX x) lofp sys = .newFrame) ∨
+    (∀ sys, ∃ f' line, lineAddress cfg {} lofp sys = .ok f' line ∧
+        lineAddress cfg (frX x) lofp sys = .ok { f' with lastDuId := x } line) := by
   unfold lineAddress lofpToLine frX
   simp only [List.length_nil, N_SLICED]
   by_cases h31 : lofp &&& 31 > 0
@@ -96,8 +98,8 @@ local macro "du_cases" : tactic => `(tactic| (
 /-- one data unit on a reset frame with a stale `last_data_unit_id`: -1 without touching the frame,
 or what the reset frame does -/
 theorem dataUnit_frX (x : Nat) (d : Bytes) (id len : Nat) :
-    dataUnit (frX x) d id len = .fail (frX x) .newFrame ∨
-    dataUnit (frX x) d id len = mapDU x (dataUnit {} d id len) := by
+    dataUnit cfg (frX x) d id len = .fail (frX x) .newFrame ∨
+    dataUnit cfg (frX x) d id len = mapDU x (dataUnit cfg {} d id len) := by
   cases hd2 : d[2]? with
   | none =>
     right
@@ -108,9 +110,9 @@ theorem dataUnit_frX (x : Nat) (d : Bytes) (id len : Nat) :
       | rfl
       | (exfalso; simp_all; done)
   | some lofp =>
-    rcases lineAddress_frX x lofp with hn | hok
-    · obtain ⟨ft, lt, hlt, _⟩ := lineAddress_fresh {} ⟨rfl, rfl, rfl, rfl⟩ lofp true
-      obtain ⟨ff, lf, hlf, _⟩ := lineAddress_fresh {} ⟨rfl, rfl, rfl, rfl⟩ lofp false
+    rcases lineAddress_frX (cfg := cfg) x lofp with hn | hok
+    · obtain ⟨ft, lt, hlt, _⟩ := lineAddress_fresh (cfg := cfg) {} ⟨rfl, rfl, rfl, rfl⟩ lofp true
+      obtain ⟨ff, lf, hlf, _⟩ := lineAddress_fresh (cfg := cfg) {} ⟨rfl, rfl, rfl, rfl⟩ lofp false
       have hnt := hn true
       have hnf := hn false
       unfold dataUnit
@@ -129,7 +131,7 @@ def SkipUnit (d : Bytes) (id len : Nat) : Prop :=
   else ¬ (id = DU_VPS ∨ id = DU_WSS ∨ id = DU_ZVBI_WSS_CPR1204 ∨ id = DU_ZVBI_CC_525 ∨ id = DU_CC)
 
 theorem dataUnit_skip_iff (f : Frame) (d : Bytes) (id len : Nat) :
-    dataUnit f d id len = .skip ↔ SkipUnit d id len := by
+    dataUnit cfg f d id len = .skip ↔ SkipUnit d id len := by
   unfold dataUnit SkipUnit
   simp only []
   constructor
@@ -150,27 +152,31 @@ theorem dataUnit_skip_iff (f : Frame) (d : Bytes) (id len : Nat) :
       obtain ⟨h2, h3, h4, h5, h6⟩ := h
       rw [if_neg h2, if_neg h3, if_neg h4, if_neg h5, if_neg h6]
 
-theorem dataUnit_skip_indep (f g : Frame) (d : Bytes) (id len : Nat) (h : dataUnit f d id len = .skip) :
-    dataUnit g d id len = .skip :=
+theorem dataUnit_skip_indep (f g : Frame) (d : Bytes) (id len : Nat) (h : dataUnit cfg f d id len = .skip) :
+    dataUnit cfg g d id len = .skip :=
   (dataUnit_skip_iff g d id len).2 ((dataUnit_skip_iff f d id len).1 h)
 
 theorem lineAddress_ok_props (f : Frame) (lofp : Nat) (sys : Bool) (f' : Frame) (line : Nat)
-    (h : lineAddress f lofp sys = .ok f' line) :
+    (h : lineAddress cfg f lofp sys = .ok f' line) :
     f'.nDu ≥ 1 ∧ f'.lines = f.lines ∧ f.lines.length < 64 := by
   unfold lineAddress at h
+  by_cases h0 : cfg.lateOverflow = false ∧ f.lines.length ≥ N_SLICED
+  · rw [if_pos h0] at h; cases h
+  rw [if_neg h0] at h
   by_cases h64 : f.lines.length ≥ N_SLICED
-  · rw [if_pos h64] at h; cases h
-  · rw [if_neg h64] at h
+  · simp only [h64, if_true] at h
+    repeat' split at h
+    all_goals cases h
+  · simp only [h64, if_false] at h
     simp only [N_SLICED] at h64
-    simp only [] at h
     repeat' split at h
     all_goals first
       | (cases h; done)
       | (cases h; exact ⟨Nat.le_add_left 1 _, rfl, by omega⟩)
 
 theorem dataUnit_store_props (f : Frame) (d : Bytes) (id len : Nat) (f' : Frame)
-    (h : dataUnit f d id len = .store f') : f'.nDu ≥ 1 ∧ f'.lines.length ≤ 64 := by
-  have hla := fun lofp sys f' line => lineAddress_ok_props f lofp sys f' line
+    (h : dataUnit cfg f d id len = .store f') : f'.nDu ≥ 1 ∧ f'.lines.length ≤ 64 := by
+  have hla := fun lofp sys f' line => lineAddress_ok_props (cfg := cfg) f lofp sys f' line
   unfold dataUnit at h
   simp only [] at h
   repeat' split at h
@@ -183,8 +189,8 @@ theorem dataUnit_store_props (f : Frame) (d : Bytes) (id len : Nat) (f' : Frame)
        omega)
 
 theorem dataUnit_fail_lines (f : Frame) (d : Bytes) (id len : Nat) (f' : Frame) (r : XR)
-    (h : dataUnit f d id len = .fail f' r) : f'.lines = f.lines := by
-  have hla := fun lofp sys f' line => lineAddress_ok_props f lofp sys f' line
+    (h : dataUnit cfg f d id len = .fail f' r) : f'.lines = f.lines := by
+  have hla := fun lofp sys f' line => lineAddress_ok_props (cfg := cfg) f lofp sys f' line
   unfold dataUnit at h
   simp only [] at h
   repeat' split at h
